@@ -167,8 +167,33 @@ def run(tier):
     if tinfo["mismatch"] and not tres.printed("TRACE_MISMATCH"):
         raise C.ToolError("trace mismatches reported but not listed")
 
+    # ---- long chains of one level, by value (floats: every grouping rounds differently)
+    cpath = os.path.join(out, "chains.ndjson")
+    _, txt = C.run_vh(["arith", "chains", cpath, "400" if thorough else "100"])
+    cr = json.loads(txt)
+    for m in cr["mismatches"]:
+        chk.violation({"kind": "chain-" + m["kind"], "op": m.get("op"), "a": m.get("a"), "b": m.get("b")}, m)
+    cres = C.run_tlc("Trace_Arith", "Trace_Arith.cfg", workers=1, timeout=1800, env_extra={"VERIF_IN": cpath}, name="trace_chains_" + tier)
+    done = cres.printed("TRACE_DONE")
+    if cres.printed("TRACE_STUCK") or not done or cres.rc != 0 or done[0]["n"] != cr["records"]:
+        raise C.ToolError("Trace_Arith did not consume the chain trace %s" % cpath)
+    chk.add_tlc("Trace_Arith[chains]", cres, "%d step records + %d chains of 3..16 float operands with operators of one level "
+                "(FloatChain: every form = end of the left-to-right chain of recorded steps)" % (cr["steps"], cr["chains"]))
+    crecs = C.read_ndjson(cpath)
+    for m in cres.printed("MISMATCH"):
+        rec_ = crecs[m["i"] - 1]
+        chk.violation({"kind": "long-chain", "text": rec_.get("as")},
+                      {"direction": "impl->spec (Trace_Arith, FloatChain)", "chain": rec_.get("as"),
+                       "specification_expects": m["expected"], "observed": rec_["rs"], "programs": rec_.get("programs")})
+    cov["long_chains"] = {k: cr[k] for k in ("chains", "steps", "executions")}
+    cov["traces_validated_against_impl"] += cr["records"]
+    for s_ in cr["samples"][:1]:
+        chk.sample(s_)
+
     chk.assumptions += [
         "TLC/SANY and the CommunityModules are correct",
+        "long chains: the IEEE result of each single step is the host's f64 (compared in the harness); that the chain is "
+        "the left-to-right composition of the steps is decided by Trace_Arith.tla",
         "structural observation: pest's PrattParser applies PRATT_PARSER's table the same way for the harness' "
         "string-building callbacks as for the library's instruction-building callbacks (same entry points: "
         "SimpleSLParser::parse(Rule::input, ..) and PRATT_PARSER.map_*..parse(pair.into_inner())); the by-value "
